@@ -8,7 +8,7 @@ namespace Goyang.Props.ConstsC05
 open Goyang.Gen.Consts Goyang.Model.ErrorSort
 
 /-- the comparator of `errorSort` splits a message into this many fields -/
-theorem error_split_count_tied : (errorSplitCount : Int) = «yang.sortedErrors.Less.errorSplitCount» := by
+theorem error_split_count_tied : (errorSplitCount : Int) = «yang:errorSplitCount» := by
   decide
 
 end Goyang.Props.ConstsC05
